@@ -32,12 +32,14 @@ claim("C02",
       "Ownership ledger contracts: every key/value is a token whose Drop/Eq/Clone assert the ledger discipline; for every operation, consuming iterator and drain "
       "(dropped or forgotten after a symbolic number of steps) Kani proves no token is destroyed twice, none is used dead/uninitialised, and the final sweep finds every token destroyed exactly once. "
       "Verus proves for all N that every slot accessor call in the accessor-style functions meets its live/empty precondition.",
-      BOUND + TB, "ghost ownership ledger as contracts, discharged by Kani; linear slot-state contracts discharged by Verus", "DESIGN 6/C02")
+      BOUND + "A bounded native stand-in (native/c04_panic_injection.rs, labelled bounded, not counted as proved) adds the executions the verifiers cannot model. " + TB,
+      "ghost ownership ledger as contracts, discharged by Kani; linear slot-state contracts discharged by Verus", "DESIGN 6/C02")
 claim("C04",
       "Unwind-safety obligations at every user callback (Tok::eq/clone/drop, predicates, closures, source iterators) of every operation from every state: "
       "each watched container must be droppable at that very point (len<=N, live prefix holds live pairwise-different tokens, the token being destroyed is no longer counted). "
       "Kani explores all callback positions at once. Found three genuine defects (clear, retain, clone) - fixed in /repo, see known_findings.json.",
-      BOUND + "Kani has no unwinding: the state after a panic is inferred from the obligation at the panic point; locals held by the operation at a callback are not modelled. " + TB,
+      BOUND + "Kani has no unwinding: the state after a panic is inferred from the obligation at the panic point; locals held by the operation at a callback are not modelled - "
+      "for those a bounded native stand-in (native/c04_panic_injection.rs: one injected panic per run at the k-th callback, k<16, 37 operations, debug+release) is run and reported as bounded, never as proved. " + TB,
       "panic points as proof obligations (monitor contract at each callback), discharged by Kani", "DESIGN 4.4, 6/C04, 7")
 
 KH = "Kani contract harnesses on the real compiled crate (arbitrary well-formed pre-state -> call -> postcondition on the whole view)"
@@ -46,7 +48,8 @@ claim("C03",
       "the call never returns, the only failing check is the container's own panic site, no memory-safety check fails (no write outside the container), and a frame contract "
       "(kani::modifies() on insert_ii under requires(full && absent)) proves nothing is written before the panic; checked_insert returns None with state unchanged and k,v destroyed once; replacing a present key succeeds; "
       "capacity()==N, len()<=N and the insert_i debug_assert are proved by Verus for all N.",
-      BOUND + "the container's contents after unwinding are inferred from 'nothing written before the panic' plus Rust dropping not-yet-moved locals once. " + TB,
+      BOUND + "the container's contents after unwinding are inferred from 'nothing written before the panic'; that the rejected key and value are destroyed exactly once after unwinding is checked only by the "
+      "bounded native stand-in native/c03_full_reject.rs (N<=3, 11 entry points, debug+release), reported as bounded, never as proved. " + TB,
       "expected-panic contract harnesses + frame (modifies) function contract, Kani in both build profiles; Verus for capacity/len/debug_assert", "DESIGN 6/C03")
 claim("C05",
       "Well-formedness (len<=N, keys pairwise different) is a postcondition of every mutating contract (C01, C07, C09, C11) from every well-formed pre-state and the observational consequences "
